@@ -80,7 +80,7 @@ fn non_env(s: &Snapshot) -> Snapshot {
 }
 
 fn query_scopes() -> Vec<Sc> {
-    vec![Sc::All, Sc::Build, Sc::Launch, Sc::Process("p".into()), Sc::Process("q".into()), Sc::Process("zz".into())]
+    vec![Sc::All, Sc::Build, Sc::Launch, Sc::Process("p".into()), Sc::Process("p.q".into()), Sc::Process("zz".into())]
 }
 
 fn start_envs(abs: &AbsEnv) -> Vec<PlainEnv> {
@@ -193,7 +193,7 @@ fn show(m: &BTreeMap<Vec<u8>, Vec<u8>>) -> Vec<String> {
 }
 
 fn entry_alphabet(thorough: bool) -> Vec<AbsEnv> {
-    let scopes = [Sc::All, Sc::Build, Sc::Launch, Sc::Process("p".into()), Sc::Process("q".into())];
+    let scopes = [Sc::All, Sc::Build, Sc::Launch, Sc::Process("p".into()), Sc::Process("p.q".into())];
     let names: Vec<&[u8]> = if thorough {
         vec![b"A", b"B.c", b".h", b"A.append", b"a b", b"\xff\xfe", "é".as_bytes()]
     } else {
@@ -215,7 +215,7 @@ fn entry_alphabet(thorough: bool) -> Vec<AbsEnv> {
     // "full" multi-scope environments
     let mk = |items: &[(Sc, Beh, &[u8], &[u8])]| -> AbsEnv { items.iter().map(|(s, b, n, v)| ((s.clone(), *b, n.to_vec()), v.to_vec())).collect() };
     let p = || Sc::Process("p".into());
-    let q = || Sc::Process("q".into());
+    let q = || Sc::Process("p.q".into());
     // every scope x every behaviour on one name
     let mut all = AbsEnv::new();
     for s in &scopes {
